@@ -94,8 +94,13 @@ theorem sim {c : Cfg} {P : Prog} {cfg : CompCfg} {loops : Node → Prop} (henv :
     rw [Compiles_str] at h; obtain ⟨k, hk, rfl⟩ := h
     exact sim_push hk (fun σ => by rw [eval_str]; rfl)
   | .const m v, code, ctx, h, _ => by
-    rw [Compiles_const] at h; obtain ⟨k, hk, rfl⟩ := h
-    exact sim_push hk (fun σ => by rw [eval_const]; rfl)
+    rw [Compiles_const] at h
+    rcases h with ⟨rfl, rfl⟩ | ⟨_, k, hk, rfl⟩
+    · intro k st scs σ r σ' hcode hsc hev
+      rw [eval_const, SM.pure_apply] at hev
+      obtain ⟨rfl, rfl⟩ := Prod.mk.inj hev
+      exact Runs.nil_ hcode (Reach.refl _ |>.to_ip (by ip_arith))
+    · exact sim_push hk (fun σ => by rw [eval_const]; rfl)
   | .ident m name nilsafe, code, ctx, h, _ => by
     rw [Compiles_ident] at h; obtain ⟨k, hk, rfl⟩ := h
     cases hm : cfg.mapEnv with
